@@ -1016,6 +1016,35 @@ def sweep(fx, R):
                                fx.rel(x.get('loc') or f['loc']), 'E-STATE')
                 else:
                     R.holds('H15', inst, '`%s` refreshed on demand under `%s`; every other method that stores it also sets the flag' % (m_, flag), fx.rel(x.get('loc') or f['loc']), 'E-STATE')
+            # the members the refreshed value is computed from: a method that changes one of them must arm the flag, or the next query hands out the value refreshed BEFORE the change
+            sources = sorted({y['name'] for (bm, r_) in st_ if bm.get('cls') == cls and bm['name'] != flag for y in walk(r_)
+                              if isinstance(y, dict) and y.get('k') == 'Member' and y.get('field') and y.get('cls') == cls and y['name'] != flag and y['name'] not in refreshed})
+            for src_ in sources:
+                lazy_ = []
+                for g in sorted(fx.functions.values(), key=lambda g: g['q']):
+                    if g.get('cls') != cls or g.get('body') is None or g.get('ctor') or g['q'] == f['q'] or (cls, flag) in writes_of.get(g['q'], ()):
+                        continue
+                    mut = any(bm.get('cls') == cls and bm['name'] == src_ for (bm, _) in stores_in(g['body']))
+                    how = 'stores `%s`' % src_
+                    if not mut:
+                        for y in walk(g['body']):
+                            if isinstance(y, dict) and y.get('k') == 'MCall' and y.get('inrepo') and y.get('fk'):
+                                ob_ = base_member(y.get('obj'))
+                                cal_ = fx.functions.get(y['fk'])
+                                if ob_ is not None and ob_.get('cls') == cls and ob_['name'] == src_ and cal_ is not None and not cal_.get('const') and not cal_.get('static'):
+                                    mut = True
+                                    how = 'calls %s.%s(), which is not const' % (src_, y.get('m'))
+                                    break
+                    if mut:
+                        lazy_.append((g, how))
+                inst = '%s:refresh-on-demand:source:%s' % (f['q'].split('(')[0], src_)
+                if lazy_:
+                    g, how = lazy_[0]
+                    R.violated('H15', inst, '%s() hands out `%s`, refreshed from `%s` only when `%s` is %s.  %s() %s and leaves the flag alone: after %s() (which refreshes and clears the flag) and then %s(), the next '
+                               '%s() still returns the value copied BEFORE the change - the answer of an earlier state of the object, not of the events it has seen' % (
+                                   f['name'], ', '.join(refreshed), src_, flag, str(pending).lower(), g['name'], how, f['name'], g['name'], f['name']), fx.rel(g['loc']), 'E-STATE')
+                else:
+                    R.holds('H15', inst, 'every method that changes `%s` arms `%s`' % (src_, flag), fx.rel(x.get('loc') or f['loc']), 'E-STATE')
     # ---- H2: single precision inside a double computation -----------------------------------------------------------------
     prec = PRECISION.get(getattr(R, 'prop', None))
     if prec is not None:
